@@ -26,6 +26,8 @@ def value_cases(ctx):
     cases = []
     rc_vals = [0, 1, 2**32 - 1, 2**32, 2**64 - 2**32, P - 1, P, P + 1, 2**64 - 1, 2**64, R - 1,
                rnd.randrange(P), rnd.randrange(P, 2**64), rnd.randrange(2**64, R)]
+    # the largest high limb with a single bit in the low limb: every one of them is >= p (the rule "high limb all ones => low limb zero")
+    rc_vals += [2**64 - 2**32 + 2**k for k in (range(32) if thorough else sorted({0, 31, rnd.randrange(1, 31)}))]
     if thorough:
         rc_vals += [rnd.randrange(P) for _ in range(20)] + [rnd.randrange(P, 2**64) for _ in range(20)] + \
                    [rnd.randrange(2**64, R) for _ in range(20)] + [P + 2**32 - 1, 2**64 - 2**32 + 2, 2**63, 2**65, 2**128, 2**253]
